@@ -539,6 +539,23 @@ def oracle_roundtrip(dump):
             return f'file-raises: save_to_file / from_bench_file raises {type(ex).__name__}: {ex}'
         if not (e == c):
             return 'file-differs: from_bench_file(save_to_file(c)) != c: ' + describe_difference(ct.dump_circuit(e), dump)
+        # "the file it was saved to" however the path is spelled: a bare file name in the working directory, a
+        # ./name, a parent directory that does not exist yet (created by save_to_file); always a str, as annotated
+        cwd = os.getcwd()
+        try:
+            os.chdir(tmp)
+            for spelled in ('bare.bench', './dot.bench', os.path.join('new_a', 'new_b', 'n.bench')):
+                try:
+                    c.save_to_file(spelled)
+                    e = Circuit.from_bench_file(spelled)
+                except Exception as ex:  # noqa: BLE001
+                    return (f'file-raises: save_to_file / from_bench_file raises {type(ex).__name__}: {ex} '
+                            f'for the path spelled {str(spelled).replace(tmp, "<tmp>")!r}')
+                if not (e == c):
+                    return (f'file-differs: from_bench_file(save_to_file(c)) != c for the path spelled '
+                            f'{str(spelled).replace(tmp, "<tmp>")!r}')
+        finally:
+            os.chdir(cwd)
     return None
 
 
